@@ -199,6 +199,26 @@ def classify_wf(prog):
     return ''
 
 
+def parent_under_guard(prog):
+    """a group with sub-groups that has a condition or iterates, and has
+    something the template emits at a fixed indentation (its own pre / post /
+    update_nnps, or a sub-group with a condition)"""
+    for top in prog['tops']:
+        if top['kind'] == 'parent':
+            a = top['attrs']
+            if (a['cond'] or a['iter']) and (
+                    a['pre'] or a['post'] or a['nnps'] or
+                    any(sub['attrs']['cond'] for sub in top['subs'])):
+                return True
+    return False
+
+
+def fail_key(prog, what):
+    if parent_under_guard(prog):
+        return 'C03:sub-groups-under-condition-or-iterate:' + what
+    return 'C03:' + what
+
+
 def gen_attrs(rng, narr_min_real, sub=False, allow_nnps=True):
     a = dict(DEFAULT_ATTRS)
     a['real'] = rng.random() < 0.6
@@ -471,7 +491,12 @@ def _worker(idx, prog, variants, work):
     kernel = CubicSpline(dim=1)
     a_eval = AccelerationEval(pas, equations, kernel)
     comp = SPHCompiler(a_eval, None)
-    comp.compile()
+    try:
+        comp.compile()
+    except BaseException as e:     # noqa  (compyle exits the interpreter on a failed build)
+        code = a_eval and comp.acceleration_eval_helpers[0].get_code()
+        return {'idx': idx, 'compile_error': '%s: %s' % (type(e).__name__, e),
+                'code_tail': code[-2500:]}
     mod = comp.module
     c03h.MOD = mod
     t_compile = time.time() - t0
@@ -890,7 +915,7 @@ def check_variant(R, prog, var, res, tag, model_out):
                      min(len(exp_c), len(obs_c)))
             ek = kind_of(exp_c[k] if k < len(exp_c) else '')
             ok = kind_of(obs_c[k] if k < len(obs_c) else '')
-            R.prop_fail('C03:first-difference:expected-%s:observed-%s' % (ek, ok), case,
+            R.prop_fail(fail_key(prog, 'first-difference:expected-%s:observed-%s' % (ek, ok)), case,
                         {'at': k, 'documented': exp_c[max(0, k - 3):k + 4],
                          'n': len(exp_c), 'error': err},
                         {'at': k, 'observed': obs_c[max(0, k - 3):k + 4],
@@ -929,9 +954,12 @@ def run_workers(items, work, nproc, timeout=600):
             of = os.path.join(work, 'out_%s_%d.json' % (uid, k))
             with open(tf, 'w') as fh:
                 json.dump([k, p, vs, work], fh)
+            lf = open(of + '.log', 'wb')
             pr = subprocess.Popen([sys.executable, os.path.abspath(__file__),
                                    '--worker-task', tf, '--worker-out', of],
-                                  stdout=subprocess.PIPE, stderr=subprocess.STDOUT)
+                                  stdout=lf, stderr=subprocess.STDOUT,
+                                  stdin=subprocess.DEVNULL)
+            lf.close()
             running[k] = (pr, of, time.time())
         time.sleep(0.2)
         for k in list(running):
@@ -943,7 +971,7 @@ def run_workers(items, work, nproc, timeout=600):
                     outs[k] = {'idx': k, 'error': 'worker timed out (generated code hangs?)'}
                     del running[k]
                 continue
-            log = pr.stdout.read().decode(errors='replace')
+            log = open(of + '.log', 'rb').read().decode(errors='replace')
             if rc == 0 and os.path.exists(of):
                 outs[k] = json.load(open(of))
             else:
@@ -964,6 +992,15 @@ def run_batch(R, items, work, nproc, tag0=0):
         if 'error' in o:
             raise SystemExit('worker failed on program %d: %s' % (o['idx'], o['error']))
         prog, variants = items[o['idx']]
+        if 'compile_error' in o:
+            # the generated module does not build: the evaluation cannot run at all
+            R.count('does-not-compile')
+            R.prop_fail(fail_key(prog, 'does-not-compile'),
+                        {'prog': prog, 'variant': variants[0]},
+                        'the program is generated, compiled and run in the documented order',
+                        {'compile_error': o['compile_error'], 'generated_tail': o['code_tail']})
+            R.case(json.dumps(prog, sort_keys=True), True, None)
+            continue
         for vi, (var, res) in enumerate(zip(variants, o['results'])):
             ls = model_lines(prog, var, res['snaps'])
             index.append((prog, var, res, len(lines), len(ls)))
